@@ -84,6 +84,15 @@ HARNESSES = [
          backends=["default", "kissat", "z3"],
          bound="list of 1 extent up to 70000 blocks (3 pieces; thorough 2^17) / 2 extents up to 33000 blocks (thorough 70000), lblk < 2^32, pblk < 2^47, either state, "
                "other flag bits symbolic, empty entries allowed; probe block symbolic"),
+    dict(name="calctree", src="calctree.c", extra_src=["lib/ext2fs/dir_iterate.c"],
+         funcs=["calculate_tree", "alloc_blocks", "set_root_node", "set_int_node", "get_next_block"],
+         cut_statics={"e2fsck/rehash.c": ["alloc_size_dir"]},
+         cbmc_flags=["--max-field-sensitivity-array-size", "8192"],
+         configs=[{"NLEAF": n} for n in (1, 4, 5, 28, 29)] + [{"NLEAF": 50, "_tier": "thorough"}],
+         unwind=9, unwindset=["main.0:60", "main.1:60", "main.2:9", "ref_hash_of_leaf.0:60", "calculate_tree.0:60", "calculate_tree.1:60", "calculate_tree.2:60"],
+         backends=["default", "kissat"],
+         bound="block size 64 (root 4 entries, interior node 7), 1/4/5/28/29 (thorough: 50, two second-level nodes) leaf blocks: one-, two- and three-level trees; leaf hashes, "
+               "inode numbers, hash version symbolic"),
 ]
 MANIFEST = {
     "text": "Kernel-level slice (partial). Bounded-exhaustive: (1) the fix_problem() protocol over every entry of the real problem_table, every "
@@ -92,6 +101,9 @@ MANIFEST = {
             "check_dot, check_dotdot, check_name, check_filetype on fully symbolic entries; (3) an inductive step of the salvage loop proving it "
             "terminates with a chain of valid entries; (4) check_inode_extra_space on a fully symbolic 256-byte inode: idempotent, writes iff it changed, "
             "touches only i_extra_isize and epoch bits -- but the epoch repair can hit bytes beyond i_extra_isize (genuine finding, label [fits]). "
+            "(5) pass-5 padding repair (check_block_end / check_inode_end): padding set, the RIGHT bitmap dirtied, clean after flush+reload, nothing touched under 'no'; "
+            "(6) rewrite_extent_replay writes exactly the (lblk -> pblk, state) relation of the list in pieces within the on-disk limits; "
+            "(7) calculate_tree at block size 64 builds a well-formed 1/2/3-level htree index (headers, order, hashes) for 1..29 leaves. "
             "Whole-run convergence of e2fsck -fy / -fn is outside.",
     "note": "Trusted: CBMC's C semantics; fix_problem stubbed to 'yes' in the kernels; the caller's dirent validity test restated from the format; "
             "find_problem cut to a slot-copying stub in fixproblem; the real find_problem is decided over the whole real table in harness find_problem "
